@@ -2,7 +2,7 @@ SPECIFICATION Spec
 CONSTANTS
   Focus = "layout-oneline"
   Families = {"leaf","top","stmt","assign","incdec","define","if","for","range","switch","typeswitch","select","label","defergo","return","block","declstmt","send","exprstmt","branch","seq"}
-  Budget = 3
+  Budget = 2
   LayoutMoves = 1
   LayoutKinds = {"oneline"}
   Wrap = "stmts"
